@@ -122,7 +122,7 @@ func newDurability(p *core.Prog, rep *core.Report, sc durScenario, rule string) 
 	d.eng = core.NewEngine(p, core.Hooks{
 		Name:   rule + "/" + sc.name,
 		Step:   d.step,
-		Edge:   d.edge,
+		Learn:  d.learn,
 		Const:  d.konst,
 		Follow: func(fn *ssa.Function) bool { return p.InLib(fn) },
 	})
@@ -152,8 +152,13 @@ func (d *durability) konst(x *core.Exec, v ssa.Value, a core.AState) (constant.V
 	return nil, false
 }
 
-func (d *durability) edge(x *core.Exec, iff *ssa.If, taken bool, a core.AState) (core.AState, bool) {
-	bo, ok := iff.Cond.(*ssa.BinOp)
+func (d *durability) learn(x *core.Exec, v ssa.Value, taken bool, a core.AState) core.AState {
+	na, _ := d.edgeOn(v, taken, a)
+	return na
+}
+
+func (d *durability) edgeOn(cond ssa.Value, taken bool, a core.AState) (core.AState, bool) {
+	bo, ok := cond.(*ssa.BinOp)
 	if !ok {
 		return a, true
 	}
